@@ -129,6 +129,9 @@ def unit_exists(hed_schema, tag_entry, attribute_name):
     """
     issues = []
     unit = tag_entry.attributes.get(attribute_name, "")
+    if not hasattr(tag_entry, "get_derivative_unit_entry"):
+        # Only unit classes have units.  The misplaced attribute itself is reported as an invalid attribute.
+        return issues
     unit_entry = tag_entry.get_derivative_unit_entry(unit)
     if unit and not unit_entry:
         issues += ErrorHandler.format_error(SchemaAttributeErrors.SCHEMA_DEFAULT_UNITS_INVALID,
